@@ -15,6 +15,9 @@ a behaviour-preserving patch must leave Generated.v byte-identical, a list of on
 """
 import json, os, re, sys, hashlib
 
+sys.path.insert(0, os.path.dirname(os.path.abspath(__file__)))
+import rsx  # noqa: E402  (the small Rust reader / evaluator, DESIGN.md §13 round 2)
+
 REPO = os.environ.get("VERIF_REPO", "/repo")
 HERE = os.path.dirname(os.path.abspath(__file__))
 # VERIF_GEN_OUT=<dir> redirects both outputs (used by tools/translator_selftest.py, which must not disturb the tree)
@@ -332,13 +335,20 @@ def deref(expr, body="", src="", depth=3):
     return e
 
 
-def is_alias(expr, target, body, depth=3):
+def is_alias(expr, target, body, depth=3, param=False):
     """is `expr` the variable `target`, possibly through casts (`x as usize`) and `let tmp = x as usize;` hops in body"""
     e = strip_parens(expr)
+    first = True
     while depth >= 0:
         e = strip_parens(re.sub(r"\s+as\s+\w+$", "", e).strip())
         if e == target:
+            # a local that SHADOWS the target (`let size = size as u32;`) is the target only if it is initialised from it
+            # (param=True: target is a parameter of the fn, so a `let target = …` in the body is a shadowing)
+            shadow = let_expr(body, target) if (first and param) else None
+            if shadow is not None:
+                return strip_parens(re.sub(r"\s+as\s+\w+$", "", strip_parens(shadow)).strip()) == target
             return True
+        first = False
         if not re.fullmatch(r"[A-Za-z_]\w*", e):
             return False
         v = let_expr(body, e)
@@ -393,6 +403,9 @@ ASCII_CLASSES = {
     "is_ascii_alphabetic": list(range(65, 91)) + list(range(97, 123)),
     "is_ascii_alphanumeric": list(range(48, 58)) + list(range(65, 91)) + list(range(97, 123)),
     "is_ascii": range(0, 128),
+    "is_ascii_graphic": range(33, 127),
+    "is_ascii_control": list(range(0, 32)) + [127],
+    "is_ascii_punctuation": list(range(33, 48)) + list(range(58, 65)) + list(range(91, 97)) + list(range(123, 127)),
 }
 
 
@@ -680,7 +693,17 @@ def byte_set(expr, var=None, src="", _depth=1, body=""):
             return set(byte_set(fb, ps[0], src, _depth - 1, body=fb))
         raise ValueError("byte predicate not understood: %r" % e[:80])
 
-    return frozenset(ev(expr))
+    try:
+        return frozenset(ev(expr))
+    except (ValueError, KeyError) as first:
+        # not one of the spellings above: evaluate the expression for every byte (if / match / helpers at any depth)
+        v = st["var"] or var
+        if v is None:
+            raise
+        try:
+            return eval_set(expr, v, src, scopes=[body] if body else ())
+        except (ValueError, rsx.Unknown, KeyError):
+            raise first
 
 
 def ordered(vals, house=()):
@@ -848,7 +871,14 @@ def range_arms(fnbody, param=None):
 
 
 def pred_fn_set(src, name):
-    """the set of bytes accepted by the one-parameter predicate `fn name(b: u8) -> bool` of src"""
+    """the set of bytes accepted by the one-parameter predicate `fn name(b: u8) -> bool` of src (tabulated; the reader of
+    round 1 is the fallback for bodies the evaluator refuses)"""
+    try:
+        t = fn_table(src, name)
+        if all(o.how == "value" and isinstance(o.value, bool) and not o.effects for o in t.values()):
+            return frozenset(k for k, o in t.items() if o.value)
+    except (ValueError, KeyError, rsx.Unknown):
+        pass
     b = fn_body(src, name)
     (v,) = fn_params(src, name)
     return byte_set(b, v, src, body=b)
@@ -869,28 +899,6 @@ def option_pred_set(body, src=""):
     if method == "filter" and not re.search(r"\.is_some\(\)", body):
         raise ValueError(".filter(..) without .is_some()")
     return byte_set(expr, closure_var(params), src, body=body)
-
-
-def hex_nibble_tables(b):
-    """HexStringLexer::next_hex_byte: for every `match <c> { LO..=HI => c - LO + ADD, … }`: ([(lo, hi, add)], [(END literal,
-    arm expression)] of the single-literal arms, name of c)"""
-    out = []
-    for m in re.finditer(r"\bmatch\s+(\w+)\s*\{", b):
-        o = m.end() - 1
-        rows, singles = [], []
-        for arm in match_arms(b[o + 1:close_of(b, o)]):
-            mm = re.fullmatch(r"(" + BYTE + r")\s*\.\.=\s*(" + BYTE + r")", arm.pattern)
-            if mm and arm.guard is None:
-                lo = int_value(mm.group(1))
-                add = affine(arm.expr, m.group(1)) + lo
-                if add < 0:
-                    raise ValueError("arm subtracts more than its range start")
-                rows.append((lo, int_value(mm.group(2)), add))
-            elif re.fullmatch(BYTE, arm.pattern) and arm.guard is None:
-                singles.append((int_value(arm.pattern), arm.expr))
-        if rows:
-            out.append((rows, singles, m.group(1)))
-    return out
 
 
 def variant_name(pat):
@@ -940,6 +948,556 @@ def variant_pred(expr, variants):
     raise ValueError("variant predicate not understood: %r" % e[:60])
 
 
+# ---- evaluation (gen/rsx.py): tabulate small functions instead of reading how they are written ------------------------------
+
+def _self_module():
+    return sys.modules[__name__]
+
+
+def tabulate_local(code, local, src, scopes=(), domain=range(256), env=None, more=None):
+    """like tabulate for a LOCAL that `code` (the inside of a block) binds itself from something opaque
+    (`let c = self.peek_byte()?; if c … `): the local is given each value of domain in turn.  more = {other local: value}."""
+    out = {}
+    for v in domain:
+        inj = dict(more or {})
+        inj[local] = v
+        try:
+            out[v] = rsx.run(_self_module(), code, dict(env or {}), src, scopes=list(scopes), inject=inj)
+        except rsx.Unknown as ex:
+            raise ValueError("cannot evaluate for %s = %r: %s" % (local, v, ex))
+    return out
+
+
+def tabulate(code, var, src, scopes=(), domain=range(256), is_expr=True, env=None):
+    """{v: rsx.Outcome} of running `code` (an expression, or the inside of a block) with `var` bound to each v of domain;
+    fns and consts are looked up in scopes (innermost first) and src.  Raises ValueError when a decision depends on
+    something that cannot be evaluated."""
+    out = {}
+    for v in domain:
+        e = dict(env or {})
+        e[var] = v
+        try:
+            out[v] = rsx.run(_self_module(), code, e, src, scopes=list(scopes), is_expr=is_expr)
+        except rsx.Unknown as ex:
+            raise ValueError("cannot evaluate for %s = %r: %s" % (var, v, ex))
+    return out
+
+
+def fn_table(src, name, domain=range(256), scopes=()):
+    """{v: Outcome} of the one-parameter fn `name` of src over domain (helpers it calls are followed, any depth)"""
+    (v,) = fn_params(src, name)
+    body = fn_body(src, name)
+    t = tabulate(body, v, src, scopes=[body] + list(scopes), domain=domain, is_expr=False)
+    for o in t.values():
+        if o.how == "return":
+            o.how = "value"
+    return t
+
+
+def value_runs(values):
+    """{byte: int} -> [(lo, hi, value at lo)] : maximal runs of consecutive bytes on which value - byte is constant"""
+    rows, run = [], None
+    for b in sorted(values):
+        v = values[b]
+        if run and b == run[1] + 1 and v - b == run[2] - run[0]:
+            run[1] = b
+        else:
+            if run:
+                rows.append(tuple(run))
+            run = [b, b, v]
+    if run:
+        rows.append(tuple(run))
+    return rows
+
+
+def option_int_values(table):
+    """{b: v} for the inputs on which the outcome is Some(v) / Ok(v) / a plain integer v"""
+    out = {}
+    for b, o in table.items():
+        v = o.value
+        if o.how != "value":
+            continue
+        if isinstance(v, tuple) and v and v[0] in ("Some", "Ok") and isinstance(v[1], int) and not isinstance(v[1], bool):
+            out[b] = v[1]
+        elif isinstance(v, int) and not isinstance(v, bool):
+            out[b] = v
+    return out
+
+
+def eval_set(expr, var, src, scopes=(), domain=range(256), env=None):
+    """the set of v in domain for which the boolean expression holds — by evaluation (helpers followed to any depth,
+    `if`/`match`/`matches!`/closures/Option combinators understood)"""
+    t = tabulate(expr, var, src, scopes=scopes, domain=domain, env=env)
+    out = set()
+    for v, o in t.items():
+        if o.how != "value" or not isinstance(o.value, bool):
+            raise ValueError("not a boolean for %s = %r: %r" % (var, v, o))
+        if o.value:
+            out.add(v)
+    return frozenset(out)
+
+
+def hex_nibble_tables(b, src):
+    """HexStringLexer::next_hex_byte: for every byte c read with next_non_whitespace_char()?, the expression that turns it into
+    a nibble is TABULATED over the 256 bytes (so a digit-value helper fn, a tuple match, reordered arms or an if-chain give the
+    same result): [(rows [(lo, hi, value at lo)] of the digit bytes, {byte: Outcome} of the bytes that are not plain digits,
+    name of c)]"""
+    names = re.findall(r"let\s+(\w+)\s*(?::\s*u8)?\s*=\s*self\.next_non_whitespace_char\(\)\?\s*;", b)
+    env = {n: rsx.Opaque(n) for n in names}
+    out = []
+    for n in names:
+        at = re.search(r"let\s+" + n + r"\b", b).end()
+        init = None
+        for m in re.finditer(r"let\s+(?:mut\s+)?(\w+)\s*(?::\s*\w+)?\s*=\s*(?=match\b|if\b)", b[at:]):
+            cand = let_expr(b[at + m.start():], m.group(1))
+            if cand and re.search(r"\b" + n + r"\b", cand.split("{")[0]):
+                init = cand
+                break
+        if init is None:
+            raise ValueError("no nibble computed from " + n)
+        t = tabulate(init, n, src, scopes=[b], env=env)
+        digits = {k: o.value for k, o in t.items()
+                  if o.how == "value" and not o.effects and isinstance(o.value, int) and not isinstance(o.value, bool)}
+        out.append((value_runs(digits), {k: o for k, o in t.items() if k not in digits}, n))
+    return out
+
+
+# ---- source-to-source normalisation used by extractors that read a fragment's TEXT (opt-in, DESIGN.md §13 round 2) ----------
+
+def statements(body):
+    """[(start, end)] of the top-level statements of a block's inside (a `;`-terminated statement includes the `;`; a block-like
+    statement ends at its closing brace)"""
+    out, i, n = [], 0, len(body)
+    while i < n:
+        while i < n and body[i].isspace():
+            i += 1
+        if i >= n:
+            break
+        start, depth, j = i, 0, i
+        blocklike = bool(re.match(r"(if|match|for|while|loop|unsafe)\b|\{", body[i:]))
+        while j < n:
+            k = skip_literal(body, j)
+            if k is not None:
+                j = k
+                continue
+            c = body[j]
+            if c in OPEN:
+                depth += 1
+            elif c in CLOSE:
+                depth -= 1
+                if depth == 0 and c == "}" and blocklike and not re.match(r"\s*(else\b|\.|\?|;)", body[j + 1:]):
+                    j += 1
+                    break
+            elif c == ";" and depth == 0:
+                j += 1
+                break
+            j += 1
+        out.append((start, j))
+        i = j
+    return out
+
+
+def _replace_ident(text, name, repl):
+    """replace the identifier `name` (not a field `.name`, not a label `name:` of a struct literal, not a path segment) by repl"""
+    out, i, n = [], 0, len(text)
+    rx = re.compile(r"(?<![\w.])" + re.escape(name) + r"(?!\w)")
+    while i < n:
+        k = skip_literal(text, i)
+        if k is not None:
+            out.append(text[i:k])
+            i = k
+            continue
+        m = rx.match(text, i)
+        if m:
+            after = text[m.end():]
+            before = text[:i].rstrip()
+            if re.match(r"\s*:(?!:)", after) and (before.endswith("{") or before.endswith(",")):
+                out.append(text[i:m.end()])             # field label
+            elif re.match(r"\s*(::|!\s*[\(\[{])", after) or before.endswith("::"):
+                out.append(text[i:m.end()])             # path / macro name
+            else:
+                out.append(repl)
+            i = m.end()
+            continue
+        out.append(text[i])
+        i += 1
+    return "".join(out)
+
+
+def inline_lets(body, only=None):
+    """`let tmp = EXPR; … tmp …`  ->  `… (EXPR) …` for immutable, simply named, singly bound locals whose initialiser has no
+    `?` / `t!` (so that moving it does not move an early exit).  Applied repeatedly, innermost blocks included.  The result is
+    for matching only (an expression used twice is duplicated)."""
+    changed = True
+    rounds = 0
+    while changed and rounds < 8:
+        changed, rounds = False, rounds + 1
+        for m in re.finditer(r"\blet\s+([a-z_]\w*)\s*(?::\s*[^=;]+?)?=\s*", body):
+            name = m.group(1)
+            if only is not None and name not in only:
+                continue
+            if len(re.findall(r"\blet\s+(?:mut\s+)?" + name + r"\b", body)) != 1:
+                continue
+            if re.search(r"[(,|]\s*(?:ref\s+|mut\s+|&)?" + name + r"\s*[),|@]", body[:m.start()]) and False:
+                continue
+            # the initialiser, up to its `;`
+            i, depth, j = m.end(), 0, m.end()
+            while j < len(body):
+                k = skip_literal(body, j)
+                if k is not None:
+                    j = k
+                    continue
+                if body[j] in OPEN:
+                    depth += 1
+                elif body[j] in CLOSE:
+                    depth -= 1
+                    if depth < 0:
+                        break
+                elif body[j] == ";" and depth == 0:
+                    break
+                j += 1
+            if j >= len(body) or body[j] != ";":
+                continue
+            init = body[i:j].strip()
+            if "?" in re.sub(r'"(?:\\.|[^"\\])*"', "", init) or re.search(r"\b(t|try_opt|bail|err)!\s*\(", init) or not init:
+                continue
+            rest = body[j + 1:]
+            if not re.search(r"(?<![\w.])" + name + r"(?!\w)", rest):
+                continue
+            if re.search(r"(?<![\w.])" + name + r"\s*(?:[-+*/%|&^]|<<|>>)?=(?!=)", rest):
+                continue                                 # assigned later: not a pure alias
+            body = body[:m.start()] + _replace_ident(rest, name, "(" + init + ")")
+            changed = True
+            break
+    return body
+
+
+def call_sites(body, fname):
+    """[(start, end, [argument texts])] of the calls `fname(..)`, `self.fname(..)`, `Self::fname(..)` in body"""
+    out = []
+    for m in re.finditer(r"(?<![\w])(?:self\s*\.\s*|Self\s*::\s*)?" + re.escape(fname) + r"\s*\(", body):
+        if re.search(r"\bfn\s+$", body[:m.start()]):
+            continue
+        o = m.end() - 1
+        c = close_of(body, o)
+        out.append((m.start(), c + 1, split_top(body[o + 1:c], ",")))
+    return out
+
+
+def private_fns(src):
+    """names of the non-`pub` fns defined in src"""
+    return [m.group(2) for m in re.finditer(r"(?m)^(\s*)(?:#\[[^\]]*\]\s*)*(?:const\s+|unsafe\s+)?fn\s+(\w+)", src)]
+
+
+def inline_calls(body, src, depth=3, exclude=()):
+    """Replace calls to private helper fns of src that are used as a STATEMENT (`helper(a, &mut b)?;` / `helper(..);`) or as the
+    initialiser of a let (`let x = helper(..);` / `…?;`) by the helper's body with its parameters renamed to the argument
+    expressions (simple arguments only: identifiers, `&x`, `&mut x`, `self.f`, literals).  A trailing `Ok(())` / `Ok(value)` /
+    `value` of the helper becomes nothing / the let's initialiser.  Followed `depth` levels (a simple chain of helpers)."""
+    helpers = set(private_fns(src)) - set(exclude)
+    for _ in range(depth):
+        progressed = False
+        for name in sorted(helpers):
+            for (a, b, args) in call_sites(body, name):
+                stmt = re.match(r"\s*(\?)?\s*;", body[b:])
+                lead = body[:a]
+                mlet = re.search(r"\blet\s+((?:mut\s+)?\w+)\s*(?::\s*[^=;]+?)?=\s*$", lead)
+                at_stmt_start = bool(re.search(r"(?:^|[;{}])\s*$", lead))
+                if not stmt or not (at_stmt_start or mlet):
+                    continue
+                if not all(re.fullmatch(r"(?:&\s*(?:mut\s+)?)?(?:\*\s*)?[\w.]+(?:\(\))?|" + BYTE, x) for x in args):
+                    continue
+                try:
+                    params = fn_params(src, name)
+                    hb = fn_body(src, name)
+                except KeyError:
+                    continue
+                if len(params) != len(args) or re.search(r"\b" + name + r"\s*\(", hb):
+                    continue
+                text = hb
+                for prm, arg in zip(params, args):
+                    arg = re.sub(r"^&\s*(?:mut\s+)?", "", arg).strip()
+                    text = _replace_ident(text, prm, arg)
+                text = re.sub(r"(?m)^\s*use\s+[^;]*;", "", text)
+                sts = statements(text)
+                tail = text[sts[-1][0]:sts[-1][1]].strip() if sts else ""
+                head = text[:sts[-1][0]] if sts else ""
+                value = None
+                if not tail.endswith(";") and not re.match(r"(if|match|for|while|loop)\b", tail):
+                    mo = re.fullmatch(r"Ok\(\s*(.*)\s*\)", tail, flags=re.S)
+                    value = (mo.group(1) if (mo and stmt.group(1)) else tail).strip()
+                else:
+                    head, value = text, None
+                if mlet:
+                    if value in (None, "", "()"):
+                        continue
+                    new = head + "\nlet " + mlet.group(1) + " = " + value + ";"
+                    body = body[:mlet.start()] + new + body[b + stmt.end():]
+                else:
+                    body = body[:a] + head + ("" if value in (None, "", "()") else value + ";") + body[b + stmt.end():]
+                progressed = True
+                break
+            if progressed:
+                break
+        if not progressed:
+            break
+    return body
+
+
+def instantiated_callees(body, src, depth=3, _seen=()):
+    """[(fn name, body text with the parameters replaced by the argument expressions of the call)] for every call in `body` to a
+    private fn of src, followed through a chain of helpers up to `depth` levels.  Lets an extractor look for a step "in the
+    function or in the helper it was moved to" while keeping track of WHICH caller values the helper works on."""
+    out = []
+    if depth <= 0:
+        return out
+    for name in private_fns(src):
+        if name in _seen:
+            continue
+        for (a, b, args) in call_sites(body, name):
+            try:
+                params, hb = fn_params(src, name), fn_body(src, name)
+            except KeyError:
+                continue
+            if len(params) != len(args):
+                continue
+            text = hb
+            for prm, arg in zip(params, args):
+                arg = re.sub(r"^&\s*(?:mut\s+)?", "", arg).strip()
+                if re.fullmatch(r"[\w.]+(?:\(\))?|" + BYTE, arg):
+                    text = _replace_ident(text, prm, arg)
+            out.append((name, text))
+            out += instantiated_callees(text, src, depth - 1, _seen + (name,))
+    return out
+
+
+def enclosing_block(text, pos):
+    """(start, end) of the inside of the innermost `{ … }` of text that contains pos"""
+    stack, i = [], 0
+    while i < len(text):
+        k = skip_literal(text, i)
+        if k is not None:
+            i = k
+            continue
+        c = text[i]
+        if c == "{":
+            stack.append(i)
+        elif c == "}" and stack:
+            o = stack.pop()
+            if o < pos <= i:
+                return o + 1, i
+        i += 1
+    return 0, len(text)
+
+
+def accepted_upto(src, name, bound, scopes=()):
+    """the one-parameter checking fn `name` (returns Ok / the value for an admissible argument, an error otherwise — as
+    `if x > B { bail } Ok(x)`, `if x <= B { Ok(x) } else { Err }`, a match, …) is run for bound - 1, bound, bound + 1:
+    returns bound iff exactly the first two are accepted"""
+    got = []
+    for v in (bound - 1, bound, bound + 1):
+        try:
+            o = rsx.run_fn(_self_module(), src, name, [v], scopes=list(scopes))
+        except rsx.Unknown as ex:
+            raise ValueError("cannot evaluate %s(%d): %s" % (name, v, ex))
+        got.append(not o.is_err and o.how == "value")
+    if got != [True, True, False]:
+        raise ValueError("%s does not accept exactly the values up to %d: %r" % (name, bound, got))
+    return bound
+
+
+def none_error(body):
+    """the error expression that an absent value is turned into: `None => Err(E)` / `None => return Err(E)` / `None => err!(E)` as
+    a match arm, `else { return Err(E) }` of a let-else, or `.ok_or(E)` / `.ok_or_else(|| E)` — the text of E"""
+    found = []
+    for m in re.finditer(r"\bNone\s*=>\s*(?:return\s+)?(?:Err|err!)\s*\(", body):
+        o = m.end() - 1
+        found.append(body[o + 1:close_of(body, o)].strip())
+    for m in re.finditer(r"\.ok_or(_else)?\s*\(", body):
+        o = m.end() - 1
+        inner = body[o + 1:close_of(body, o)].strip()
+        if m.group(1):
+            inner = re.sub(r"^(?:move\s+)?\|\s*\|\s*", "", inner).strip()
+        found.append(strip_block(inner))
+    for m in re.finditer(r"\blet\s+Some\([^=]*=[^;{]*?\belse\s*\{\s*return\s+Err\s*\(", body):
+        o = m.end() - 1
+        found.append(body[o + 1:close_of(body, o)].strip())
+    for m in re.finditer(r"\bif\s+let\s+Some\(", body):
+        try:
+            arms, scrut, end = _if_let_arms(body, m.start())
+        except (KeyError, IndexError, AttributeError):
+            continue
+        mm = len(arms) == 2 and re.fullmatch(r"(?:return\s+)?(?:Err|err!)\s*\((.*)\)\s*;?", arms[1].expr, flags=re.S)
+        if mm:
+            found.append(mm.group(1).strip())
+    if len(found) != 1:
+        raise ValueError("expected one None -> Err conversion, found %d" % len(found))
+    return found[0]
+
+
+def fmt_calls(body):
+    """every `write!(DEST, "fmt", args…)` / `writeln!(DEST[, "fmt", args…])` of body in source order, normalised:
+       dest, macro, template (bytes of the format string with every hole written `{}` or `{:spec}`, `{{`/`}}` unescaped to a
+       single brace marker, and the newline of writeln! appended), holes [(argument text, spec)] — an inline `{name}` /
+       `{name:spec}` and a positional `{}` + argument are the same hole — pos, end"""
+    out = []
+    for m in re.finditer(r"\b(writeln|write)!\s*\(", body):
+        o = m.end() - 1
+        c = close_of(body, o)
+        parts = split_top(body[o + 1:c], ",")
+        if not parts:
+            continue
+        dest, fmt, args = parts[0], (parts[1] if len(parts) > 1 else '""'), parts[2:]
+        if not re.fullmatch(r'"(?:\\.|[^"\\])*"', fmt, flags=re.S):
+            continue
+        raw = str_bytes(fmt)
+        tmpl, holes, i, pos_arg = [], [], 0, 0
+        named = {}
+        for a in list(args):
+            mm = re.fullmatch(r"(\w+)\s*=\s*(.*)", a, flags=re.S)
+            if mm:
+                named[mm.group(1)] = mm.group(2)
+                args.remove(a)
+        while i < len(raw):
+            ch = raw[i]
+            if ch == 0x7B and i + 1 < len(raw) and raw[i + 1] == 0x7B:
+                tmpl.append(0x7B)
+                i += 2
+            elif ch == 0x7D and i + 1 < len(raw) and raw[i + 1] == 0x7D:
+                tmpl.append(0x7D)
+                i += 2
+            elif ch == 0x7B:
+                j = raw.index(0x7D, i)
+                inner = bytes(raw[i + 1:j]).decode("latin-1")
+                name, _, spec = inner.partition(":")
+                name = name.strip()
+                if name == "":
+                    arg = args[pos_arg] if pos_arg < len(args) else "?"
+                    pos_arg += 1
+                elif name.isdigit():
+                    arg = args[int(name)] if int(name) < len(args) else "?"
+                else:
+                    arg = named.get(name, name)
+                holes.append((arg.strip(), spec))
+                tmpl += list(("\x00" + (":" + spec if spec else "") + "\x01").encode("latin-1"))
+                i = j + 1
+            else:
+                tmpl.append(ch)
+                i += 1
+        if m.group(1) == "writeln":
+            tmpl.append(10)
+        out.append({"dest": dest.strip(), "macro": m.group(1), "template": bytes(tmpl), "holes": holes, "pos": m.start(), "end": c + 1})
+    return out
+
+
+def fmt_literal(call):
+    """the bytes written by a call without holes"""
+    if call["holes"]:
+        raise ValueError("format string has holes")
+    return list(call["template"])
+
+
+def fmt_split(call):
+    """the literal pieces between the holes of a call: [bytes before hole 1, between 1 and 2, …, after the last]"""
+    return [list(x) for x in re.split(rb"\x00[^\x01]*\x01", call["template"])]
+
+
+def branches(body, var):
+    """A decision on `var` against string / byte / integer literals, written as an `if var == "a" {A} else if var == "b" {B} else
+    {C}` chain (in any order, `"a" == var` too) or as `match var { "a" => A, "b" => B, _ => C }`: {literal text: block text},
+    with the key None for the final else / wildcard.  Keys are the literals as written ("f", b'x' -> its value as int)."""
+    out = {}
+
+    def key(tok):
+        tok = tok.strip()
+        if re.fullmatch(r'b?"(?:\\.|[^"\\])*"', tok):
+            return bytes(str_bytes(tok)).decode("latin-1")
+        return int_value(tok)
+    v = re.escape(var)
+    m = re.search(r"\bif\s+(?:" + v + r"\s*==\s*([^{&|]+?)|([^{&|=]+?)\s*==\s*" + v + r")\s*\{", body)
+    mm = re.search(r"\bmatch\s+\*?" + v + r"(?:\.as_str\(\)|\.as_bytes\(\)|\.as_ref\(\))?\s*\{", body)
+    if m and (not mm or m.start() < mm.start()):
+        i = m.start()
+        while True:
+            m = re.compile(r"if\s+(?:" + v + r"\s*==\s*([^{&|]+?)|([^{&|=]+?)\s*==\s*" + v + r")\s*\{").match(body, i)
+            if not m:
+                raise ValueError("if-chain on %s has a branch that is not `== literal`" % var)
+            o = m.end() - 1
+            c = close_of(body, o)
+            k = key(m.group(1) or m.group(2))
+            if k in out:
+                raise ValueError("duplicate key %r" % (k,))
+            out[k] = body[o + 1:c]
+            e = re.compile(r"\s*else\s*").match(body, c + 1)
+            if not e:
+                out.setdefault(None, "")
+                return out
+            if body.startswith("{", e.end()):
+                c2 = close_of(body, e.end())
+                out[None] = body[e.end() + 1:c2]
+                return out
+            i = e.end()
+    if mm:
+        o = mm.end() - 1
+        for arm in _arms_of_block(body[o + 1:close_of(body, o)]):
+            if arm.guard is not None:
+                raise ValueError("guarded arm")
+            for p in arm.pats:
+                if p == "_" or re.fullmatch(r"[a-z_]\w*", p):
+                    out[None] = arm.expr
+                else:
+                    k = key(p)
+                    if k in out:
+                        raise ValueError("duplicate key %r" % (k,))
+                    out[k] = arm.expr
+        return out
+    raise KeyError("no decision on " + var)
+
+
+def if_conditions(body):
+    """[(condition text, then-block text, start offset)] of every boolean `if` in body (nested ones included), read with the
+    rsx parser (so conditions that contain braces — a `match`, a struct pattern — are delimited correctly)"""
+    out = []
+    for m in re.finditer(r"\bif\b(?!\s+let\b)", body):
+        if skip_inside_literal(body, m.start()):
+            continue
+        try:
+            p = rsx.Parser(body[m.end():])
+            cond = p.parse_expr(no_struct=True)
+            if not p.at("{"):
+                continue
+            o = m.end() + p.peek().pos
+            out.append((p.text(cond), body[o + 1:close_of(body, o)], m.start()))
+        except (rsx.Unknown, KeyError, IndexError):
+            continue
+    return out
+
+
+def skip_inside_literal(s, pos):
+    """is pos inside a string / char literal of s? (scan from the start; bodies are short)"""
+    i = 0
+    while i < pos:
+        k = skip_literal(s, i)
+        if k is not None:
+            if k > pos:
+                return True
+            i = k
+        else:
+            i += 1
+    return False
+
+
+def guard_values(cond, path, src, scopes=(), domain=range(256)):
+    """`cond` is a disjunction `A || B || …` that rejects an input; the values of `path` (an expression such as
+    `params.bits_per_component`, or a variable) for which the disjuncts that mention it hold — by evaluation"""
+    v = "__v"
+    parts = [d for d in split_top(strip_parens(cond), "||") if re.search(r"(?<![\w.])" + re.escape(path) + r"(?!\w)", d)]
+    if not parts:
+        raise ValueError("condition does not mention " + path)
+    expr = " || ".join("(" + re.sub(r"(?<![\w.])" + re.escape(path) + r"(?!\w)", v, d) + ")" for d in parts)
+    return eval_set(expr, v, src, scopes=scopes, domain=domain)
+
+
 class Gen:
     def __init__(self):
         self.defs = []      # (name, coq type, coq term, anchor)
@@ -984,16 +1542,16 @@ def main():
 
     # ---- enc.rs ------------------------------------------------------------
     def nibble():
-        # arms  v @ LO ..= HI => Some(v - LO + ADD): (lo, hi, add)
-        out = [(lo, hi, k + lo) for lo, hi, k in range_arms(fn_body(enc, "decode_nibble"))]
-        if not out or any(add < 0 for _, _, add in out):
-            raise ValueError("no arms / an arm subtracts more than its range start")
+        # decode_nibble tabulated over the 256 bytes: rows (lo, hi, value at lo) of the digit runs
+        out = value_runs(option_int_values({k: o for k, o in fn_table(enc, "decode_nibble").items() if not o.effects}))
+        if not out:
+            raise ValueError("no digits")
         return ctuples(ordered_by_key(out, [48, 97, 65]))
     g.attempt([("nibble_ranges", "list (N * N * N)")], "enc.rs:decode_nibble", nibble)
 
     def enc_nibble():
-        # arms  LO ..= HI => BASE + c: our table computes c - lo + b0 with b0 = BASE + lo
-        out = [(lo, hi, k + lo) for lo, hi, k in range_arms(fn_body(enc, "encode_nibble"))]
+        # encode_nibble tabulated: rows (lo, hi, byte written for lo)
+        out = value_runs(option_int_values({k: o for k, o in fn_table(enc, "encode_nibble").items() if not o.effects}))
         if not out:
             raise ValueError("no arms")
         return ctuples(ordered_by_key(out))
@@ -1016,8 +1574,8 @@ def main():
     g.attempt([("hexfilter_ws", "list N"), ("hex_eod", "N")], "enc.rs:decode_hex", hexws)
 
     def sym85():
-        (lo, hi, k), = range_arms(fn_body(enc, "sym_85"))
-        if k != -lo:
+        (lo, hi, v0), = value_runs(option_int_values({k: o for k, o in fn_table(enc, "sym_85").items() if not o.effects}))
+        if v0 != 0:
             raise ValueError("sym_85 offset differs from range start")
         return str(lo), str(hi)
     g.attempt([("sym85_lo", "N"), ("sym85_hi", "N")], "enc.rs:sym_85", sym85)
